@@ -11,6 +11,11 @@ def run(ctx):
     n = 60 if ctx.quick() else 1500
     cases = ic.gen_line_curve(ctx, n) + ic.gen_planted(ctx, n) + ic.gen_shared_ends(ctx, n // 2)
     sweep(ctx, "geometric_reported_pairs_are_real", cases, [("Curve.intersect", ic.intersect_args("GEOMETRIC"))], ic.judge_c02)
+    # end point of one curve in the interior of the other: Newton lands a hair outside [0,1] in a fraction of a percent of the
+    # cases, so this family is large (the compiled pipeline is fast; the pure one gets a tenth)
+    ends = ic.gen_end_on_curve(ctx, 4000 if ctx.quick() else 60000)
+    sweep(ctx, "end_point_on_the_other_curve_speedup", ends, [("Curve.intersect", ic.intersect_args("GEOMETRIC"))], ic.judge_c02, configs=("speedup",))
+    sweep(ctx, "end_point_on_the_other_curve_pure", ends[: len(ends) // 10], [("Curve.intersect", ic.intersect_args("GEOMETRIC"))], ic.judge_c02, configs=("pure",))
     alg = [c for c in cases if (len(c["c1"][0]) - 1) * (len(c["c2"][0]) - 1) <= 4 and len(c["c1"][0]) <= 5 and len(c["c2"][0]) <= 5]
     sweep(ctx, "algebraic_reported_pairs_are_real", alg, [("Curve.intersect", ic.intersect_args("ALGEBRAIC"))], ic.judge_c02, configs=("pure",))
     return finish(ctx, "PROVED (range half): every parameter pair recorded by from_linearized / endpoint_check / check_lines / "
